@@ -5,7 +5,7 @@
    [reg_view x] = the (name, proxy) pairs session x has put into the global name table and not yet
    taken out (ctl.proxies, plus the entry of a handler or teardown step in flight);
    [earlier z x] = z was stored under the run id of x before x was (ghost Add order). *)
-From FRP Require Import Model.CtlMgr Proofs.CtlMgrProofs Proofs.C12SyncCheck gen.GenC12Sync.
+From FRP Require Import Model.CtlMgr Proofs.CtlMgrProofs Proofs.C12SyncCheck gen.GenC12Sync Model.ClientLogin Proofs.ClientLoginProofs.
 From Coq Require Import List NArith ZArith.
 Import ListNotations.
 Import CM.
@@ -173,13 +173,71 @@ Theorem C12_held_name_add_refused : forall cfg acts s x n p t y q pick,
 Proof. exact held_name_add_refused. Qed.
 Print Assumptions C12_held_name_add_refused.
 
+(* ---- round 4: what a session holds is running; visitor listeners; the client half ---- *)
+
+Theorem C12_held_proxy_is_running : forall cfg acts s x n p,
+  let st := run acts (init_with cfg) in
+  alookup s (sessions st) = Some x -> hold x n p ->
+  exists pr, alookup p (proxies st) = Some pr /\ p_status pr = PRunning /\ p_owner pr = s /\ p_name pr = n.
+Proof. exact held_proxy_is_running. Qed.
+Print Assumptions C12_held_proxy_is_running.
+
+(* the visitor listener table (stcp / sudp; keyed and deleted BY NAME in the code) is exactly the set of
+   running visitor-type proxies: a name never stands for a missing or a foreign listener *)
+Theorem C12_visitor_listener_iff_running : forall cfg acts,
+  let st := run acts (init_with cfg) in
+  (forall n p, alookup n (vlis st) = Some p ->
+     exists pr, alookup p (proxies st) = Some pr /\ p_vis pr = true /\ p_name pr = n /\ p_status pr = PRunning) /\
+  (forall p pr, alookup p (proxies st) = Some pr -> p_vis pr = true -> p_status pr = PRunning ->
+     alookup (p_name pr) (vlis st) = Some p).
+Proof. exact visitor_listener_iff_running. Qed.
+Print Assumptions C12_visitor_listener_iff_running.
+
+(* "the incumbent keeps working": whatever the others do — duplicate registrations refused at Exist, at Run
+   (listener exists) or at pxyManager.Add with their roll-backs, closes, teardowns — my running
+   visitor-type proxy keeps its listener *)
+Theorem C12_incumbent_keeps_its_listener : forall cfg acts2 acts s x n p pr,
+  let st := run acts (init_with cfg) in
+  Forall (fun a => actor a <> Some s) acts2 ->
+  alookup s (sessions st) = Some x -> alookup n (reg_view x) = Some p ->
+  alookup p (proxies st) = Some pr -> p_vis pr = true -> p_status pr = PRunning ->
+  alookup n (vlis (run acts2 st)) = Some p.
+Proof. exact incumbent_keeps_its_listener. Qed.
+Print Assumptions C12_incumbent_keeps_its_listener.
+
+Theorem C12_failed_run_changes_nothing : forall st t y n att np ro pick st' o,
+  alookup t (sessions st) = Some y -> s_spc y = SRun n att np ro ->
+  step st (AStep (TSess t) pick) = Some (st', o) ->
+  (exists e, o = [ONewProxyResp t n att e (negb (s_closed y))]) ->
+  pxys st' = pxys st /\ proxies st' = proxies st /\ vlis st' = vlis st /\
+  forall u, u <> t -> alookup u (sessions st') = alookup u (sessions st).
+Proof. exact failed_run_changes_nothing. Qed.
+Print Assumptions C12_failed_run_changes_nothing.
+
+(* the client half (Model/ClientLogin.v): every login attempt presents the run id given by the last
+   accepted login before it, whatever refusals, i/o errors and connection losses lie in between *)
+Theorem C12_client_presents_given_runid : forall l,
+  snd (CL.c_run CL.c_init l) = CL.should_present None l /\
+  CL.c_runid (fst (CL.c_run CL.c_init l)) = CL.last_given None l.
+Proof. exact client_presents_given_runid. Qed.
+Print Assumptions C12_client_presents_given_runid.
+
+Theorem C12_refused_login_keeps_runid : forall pre r sent post,
+  snd (CL.c_run CL.c_init (pre ++ [CL.ELogin (CL.OAccepted (Some r)); CL.EConnLost; CL.ELogin (CL.ORefused sent); CL.ELogin post])) =
+  snd (CL.c_run CL.c_init pre) ++ [CL.last_given None pre; Some r; Some r].
+Proof. exact refusal_keeps_runid. Qed.
+Print Assumptions C12_refused_login_keeps_runid.
+
 (* ---- the model's structural assumptions hold in today's source (reflective, tables regenerated
    from server/control.go and server/proxy/proxy.go by translator/cmd/c12sync on every run):
    NewProxy / CloseProxy / Ping handlers run synchronously in the read loop (so a session's requests
    and its teardown are one sequential thread, as in the model); proxy.Manager.Add tests and inserts
    inside ONE critical section of the write lock; ControlManager.Add looks up, calls Replaced and
-   stores inside one; ControlManager.Del is the identity-guarded delete under the lock ---- *)
-Theorem C12_source_matches_model_atomicity : c12_source_ok c12_handlers c12_crit = true.
+   stores inside one; ControlManager.Del is the identity-guarded delete under the lock; the client's login()
+   presents svr.runID and remembers the answer's run id only after the error check; a proxy's own name is
+   the wire name verbatim; Run of an stcp/sudp proxy is VisitorManager.Listen and nothing else ---- *)
+Theorem C12_source_matches_model_atomicity :
+  c12_source_ok c12_handlers c12_crit c12_client_login c12_name_assign c12_vis_run = true.
 Proof. vm_compute. reflexivity. Qed.
 Print Assumptions C12_source_matches_model_atomicity.
 
@@ -193,13 +251,13 @@ Print Assumptions C12_sync_handlers_meaning.
    at once (both Adds before any teardown), the chain unwinds, session 2 re-registers name 1 *)
 Definition ex_chain : list action :=
   [ALogin None 7; AStep (TLogin 0) 0; AStep (TLogin 0) 0;
-   AReq 0 (RNew 1 0 1%Z true true); AStep (TSess 0) 0; AStep (TSess 0) 0; AStep (TSess 0) 0; AStep (TSess 0) 0;
+   AReq 0 (RNew 1 0 (mkPT 1%Z false) true true); AStep (TSess 0) 0; AStep (TSess 0) 0; AStep (TSess 0) 0; AStep (TSess 0) 0;
    ALogin (Some 7) 0; ALogin (Some 7) 0; AStep (TLogin 1) 0; AStep (TLogin 2) 0;
    AStep (TSess 0) 0; AStep (TSess 0) 0; AStep (TSess 0) 1; AStep (TSess 0) 0; AStep (TSess 0) 0;
    AStep (TLogin 1) 0; AStep (TLogin 1) 0; AStep (TSess 1) 0; AStep (TSess 1) 0; AStep (TSess 1) 0;
    AStep (TLate 0) 0; AStep (TLate 0) 0;
    AStep (TLogin 2) 0; AStep (TLogin 2) 0;
-   AReq 2 (RNew 1 1 1%Z true true); AStep (TSess 2) 0; AStep (TSess 2) 0; AStep (TSess 2) 0; AStep (TSess 2) 0].
+   AReq 2 (RNew 1 1 (mkPT 1%Z false) true true); AStep (TSess 2) 0; AStep (TSess 2) 0; AStep (TSess 2) 0; AStep (TSess 2) 0].
 
 Example ex_chain_state :
   let st := run ex_chain init in
@@ -221,9 +279,9 @@ Proof. vm_compute. eexists; repeat split. Qed.
 Example ex_former_owner :
   let st := run [ALogin None 7; AStep (TLogin 0) 0; AStep (TLogin 0) 0;
                  ALogin None 8; AStep (TLogin 1) 0; AStep (TLogin 1) 0;
-                 AReq 0 (RNew 5 0 1%Z true true); AStep (TSess 0) 0; AStep (TSess 0) 0; AStep (TSess 0) 0; AStep (TSess 0) 0;
+                 AReq 0 (RNew 5 0 (mkPT 1%Z false) true true); AStep (TSess 0) 0; AStep (TSess 0) 0; AStep (TSess 0) 0; AStep (TSess 0) 0;
                  AReq 0 (RClose 5); AStep (TSess 0) 0;
-                 AReq 1 (RNew 5 1 1%Z true true); AStep (TSess 1) 0; AStep (TSess 1) 0; AStep (TSess 1) 0; AStep (TSess 1) 0;
+                 AReq 1 (RNew 5 1 (mkPT 1%Z false) true true); AStep (TSess 1) 0; AStep (TSess 1) 0; AStep (TSess 1) 0; AStep (TSess 1) 0;
                  AReq 0 (RClose 5); AStep (TSess 0) 0;
                  AEof 0; AStep (TSess 0) 0; AStep (TSess 0) 0] (init_with 3%Z) in
   alookup 5 (pxys st) = Some 1 /\
@@ -231,4 +289,20 @@ Example ex_former_owner :
   (exists pr, alookup 0 (proxies st) = Some pr /\ p_owner pr = 0 /\ p_status pr = PClosed) /\
   (exists z, alookup 0 (sessions st) = Some z /\ s_done z = true /\ s_ports z = 0%Z) /\
   (exists y, alookup 1 (sessions st) = Some y /\ alookup 5 (s_proxies y) = Some 1 /\ s_ports y = 1%Z).
+Proof. vm_compute. repeat split; eexists; repeat split. Qed.
+
+(* the stcp duplicate that passes Exist: T and S both pass the Exist check for name 5, S runs (its visitor
+   listener exists), T's Run fails with class 3 and changes nothing, S registers: S holds name and listener *)
+Example ex_visitor_duplicate :
+  let st := run [ALogin None 7; AStep (TLogin 0) 0; AStep (TLogin 0) 0;
+                 ALogin None 8; AStep (TLogin 1) 0; AStep (TLogin 1) 0;
+                 AReq 1 (RNew 5 0 (mkPT 0%Z true) true true); AStep (TSess 1) 0;
+                 AReq 0 (RNew 5 1 (mkPT 0%Z true) true true); AStep (TSess 0) 0;
+                 AStep (TSess 0) 0;
+                 AStep (TSess 1) 0;
+                 AStep (TSess 0) 0; AStep (TSess 0) 0] (init_with 0%Z) in
+  alookup 5 (vlis st) = Some 0 /\ alookup 5 (pxys st) = Some 0 /\
+  (exists pr, alookup 0 (proxies st) = Some pr /\ p_owner pr = 0 /\ p_status pr = PRunning) /\
+  alookup 1 (proxies st) = None /\
+  (exists y, alookup 1 (sessions st) = Some y /\ s_spc y = SIdle /\ s_proxies y = []).
 Proof. vm_compute. repeat split; eexists; repeat split. Qed.
